@@ -20,7 +20,17 @@
     levels, downsampled arrays and masks) is modified in place before the identical request is
     repeated; every answer must equal the first one and a fresh computation (new dataset, empty
     cache).
-Dataset sizes include 1024 and 2048 events (metamorphic part, all entry points incl. tsv).
+(f) registry and glue of get_statistics: generated method / feature subsets (default methods,
+    permutations, repetitions, an unknown method, features absent from the dataset, upper-case
+    names, filters disabled, flow rate missing) against the Lean model `getStatistics` over the
+    registry table regenerated from the source: KeyError, header order (dataset methods first,
+    then feature by feature), number of entries, every value (Mode through `modeFD`, SD through
+    the variance).
+Dataset sizes include 1024 and 2048 events (metamorphic part, all entry points incl. tsv), six
+datasets whose filter selects exactly 1..6 events, and one sample with more than 2**20 selected
+events (statistics, KDE at explicit positions vs. references, downsampling).  Part (c) judges
+every sample on which the reference estimator is defined: an exception of the implementation
+where the reference gives finite densities is a failure of the property's oracle.
 """
 import warnings
 from fractions import Fraction
@@ -31,21 +41,37 @@ from . import common
 
 ID = "C12"
 LEAN_MODULES = ["DclabModel.Properties.C12"]
-RULE = ("plus two datasets of 1024 / 2048 events (metamorphic part), 30 histories of 7-14 "
+RULE = ("90 (thorough: 1000) seeded datasets as described below, plus six datasets whose filter selects exactly 1..6 events, two datasets of 1024 / 2048 "
+        "events (metamorphic part), one sample with more than 2**20 selected events (thorough: "
+        "three, up to 2**22 events; statistics, every KDE type at explicit positions vs. the "
+        "reference estimators, downsampling), 40 get_statistics requests with generated method / "
+        "feature subsets (default, permuted, repeated, unknown method; features absent from the "
+        "dataset, upper-case names; filters disabled; flow rate missing), 30 histories of 7-14 "
         "operations (filter / configuration / late features / statistics requests) and 12 "
         "mutate-and-repeat request sequences of 48 requests each on one dataset; "
         "seeded datasets of 1-64 events with two to three scalar features (positive, "
         "log-normal-like; variants: heavy ties, values <= 0, NaN/inf on included and on excluded "
-        "events), filters: empty, single event, random, full; per dataset all entry points x "
-        "{linear, log} x {histogram, gauss, multivariate, none}. A case is one (dataset, filter, "
-        "entry point, configuration); non-trivial when the filter excludes at least one event "
-        "and selects at least one. distinct = distinct canonical (data, filter, entry) triples.")
+        "events), filters: empty, single event, exactly 1-5 events, random, full; per dataset all "
+        "entry points x {linear, log} x {histogram, gauss, multivariate, none}; the reference "
+        "estimators are compared on EVERY sample on which they are defined (finite density at "
+        "every valid position), tiny and heavily tied samples included. A case is one (dataset, "
+        "filter, entry point, configuration); non-trivial when the filter excludes at least one "
+        "event and selects at least one. distinct = distinct canonical (data, filter, entry) triples.")
 TRUSTED_BASE = [
     "modelled, not verified: numpy boolean indexing, np.log, np.isnan/isinf; floating-point "
     "rounding of np.average / np.median / np.std / np.percentile (bounded by the comparison "
     "tolerance 1e-12 relative to the data scale)",
     "reference estimators of part (c) are evaluated with numpy/scipy by the harness: "
-    "numpy.histogram2d, scipy.interpolate.RectBivariateSpline, scipy.stats.gaussian_kde / skew"]
+    "numpy.histogram2d, scipy.interpolate.RectBivariateSpline, scipy.stats.gaussian_kde / skew",
+    "the registry table Gen/StatsTable.lean is regenerated on every run from "
+    "Statistics.available_methods (name, req_feature; the flag is observed through the header of "
+    "get_statistics when the attribute is not there); the driver's `registry` answer is compared "
+    "with the running code",
+    "feature labels in the header of get_statistics come from dclab.definitions.get_feature_label "
+    "on both sides (the wording of labels is not part of the property)",
+    "model parameters FP.sqrt (np.std) and FP.cbrt (n ** (1/3) in statistics.mode): the driver "
+    "instantiates sqrt with the identity (SD is compared as SD^2 with the variance) and cbrt with "
+    "the table of float values computed by the harness"]
 ASSUMPTIONS = ["np.log is applied element-wise (model parameter `lg`)",
                "estimators are deterministic functions of their arguments (grid downsampling uses "
                "RandomState(47))"]
@@ -54,14 +80,88 @@ NOT_PROVED = [
     "equality of kde_gauss with scipy.stats.gaussian_kde: differential only",
     "equality of kde_multivariate with the product Gaussian kernel estimator: differential only",
     "Doane's rule (skewness, log2) for bin number / contour spacing: differential only",
-    "square root in SD, cube root in the Freedman-Diaconis bin size of `mode`: parameters of the model",
+    "square root in SD and cube root in the Freedman-Diaconis bin size of `mode`: parameters "
+    "(FP.sqrt, FP.cbrt) of the model; everything around them (variance, percentile rule for the "
+    "interquartile range, binning, most frequent bin) is in the model (sd, modeFD)",
     "percentile_splits as planned (#{d<L}/n <= q <= #{d<=L}/n) is FALSE for NumPy's linear rule "
     "(Lean witness percentile_splits_full_is_false); proved instead: "
-    "#{d<L}-1 <= q(n-1) < #{d<=L} (percentile_splits_partial)",
-    "theorem_scope: selection, purge, histogram counts, percentile; estimators: differential only"]
+    "#{d<L}-1 <= q(n-1) < #{d<=L} (percentile_splits_partial), monotone in q "
+    "(percentile_mono_in_q), invariant under permutation of the events "
+    "(percentile_permutation_invariant)",
+    "large samples (> 2**20 events) are outside the model protocol: metamorphic, definition and "
+    "reference-estimator oracles only",
+    "theorem_scope: selection, purge, histogram counts, percentile, statistics registry and "
+    "get_statistics glue; estimators: differential only"]
 
 KDES = ["histogram", "gauss", "multivariate", "none"]
 FEATS = ["area_um", "deform", "bright_avg"]
+GEN = common.LEAN_DIR / "DclabModel" / "Gen" / "StatsTable.lean"
+
+
+# ---------------------------------------------------------------------------------------
+# translator: the registry of statistics (name, needs-a-feature flag) from the source tree
+def registry_from_source():
+    """[(name, req_feature)] in registration order. The flag is read from the documented
+    attribute `req_feature`; if that attribute is not there (renamed) it is OBSERVED instead: a
+    method needs a feature iff its header entry is not just its name."""
+    dclab = common.import_dclab()
+    from dclab import statistics
+    rows = []
+    probe = None
+    avm = getattr(getattr(statistics, "Statistics", None), "available_methods", None)
+    if not isinstance(avm, dict):
+        return None                     # registry not reachable under its documented name
+    for name, st in avm.items():
+        flag = getattr(st, "req_feature", None)
+        if not isinstance(flag, (bool, np.bool_)):
+            if probe is None:
+                probe = dclab.new_dataset({"deform": np.array([0.01, 0.02, 0.03]),
+                                           "area_um": np.array([50.0, 60.0, 70.0])})
+            with warnings.catch_warnings():
+                warnings.simplefilter("ignore")
+                hdr, _ = statistics.get_statistics(probe, methods=[name], features=["deform"])
+            flag = hdr != [name]
+        rows.append((str(name), bool(flag)))
+    return rows
+
+
+def lean_str(s):
+    return '"' + s.replace("\\", "\\\\").replace('"', '\\"') + '"'
+
+
+def registry_rows():
+    """the registry the model works with: from the source, or (registry not reachable) the rows
+    of the existing table"""
+    import re
+    rows = registry_from_source()
+    if rows is None and GEN.exists():
+        rows = [(a, b == "true") for a, b in
+                re.findall(r'^  \("((?:[^"\\\\]|\\\\.)*)", (true|false)\)', GEN.read_text(), re.M)]
+    return rows or []
+
+
+def render_table():
+    rows = registry_from_source()
+    if rows is None:
+        return None
+    body = ",\n".join(f"  ({lean_str(n)}, {'true' if f else 'false'})" for n, f in rows)
+    return ("/-!\nGENERATED by harness/c12.py:translate from "
+            "dclab.statistics.Statistics.available_methods\n-- do not edit.  The registry of "
+            "statistics: name and `req_feature`, in registration order.\n-/\n"
+            "namespace DclabModel.Gen.StatsTable\n\n"
+            "/-- `[(name, s.req_feature) for name, s in Statistics.available_methods.items()]` -/\n"
+            "def registry : List (String × Bool) := [\n" + body + "]\n\n"
+            "end DclabModel.Gen.StatsTable\n")
+
+
+def translate():
+    txt = render_table()
+    if txt is None:         # keep the last table; run() records a NOTE and skips the table check
+        return None
+    if not GEN.exists() or GEN.read_text() != txt:
+        GEN.parent.mkdir(parents=True, exist_ok=True)
+        GEN.write_text(txt)
+    return txt
 
 
 # ---------------------------------------------------------------------------------------
@@ -79,6 +179,14 @@ def frac(s):
     if s == "nan":
         return None
     return Fraction(s)
+
+
+def ffloat(f):
+    """float of an exact rational; +-inf when it is beyond the float range"""
+    try:
+        return float(f)
+    except OverflowError:
+        return np.inf if f > 0 else -np.inf
 
 
 def bits(m):
@@ -143,7 +251,7 @@ def make_data(ctx, variant, n=None):
     rs = np.random.RandomState(ctx.rng.randrange(2**31))
     if n is None:
         n = ctx.rng.choice([5, 8, 13, 16, 21, 34, 32, 60, 64]) if variant != "tiny" \
-            else ctx.rng.choice([1, 2, 3])
+            else ctx.rng.choice([1, 2, 2, 3, 4, 5])
     d = {"area_um": np.exp(rs.normal(4.0, 0.5, n)),
          "deform": np.abs(rs.normal(0.05, 0.03, n)) + 0.002,
          "bright_avg": rs.normal(100, 15, n)}
@@ -173,7 +281,12 @@ def poison(rs, arr, where, how):
     return a
 
 
-def make_mask(ctx, n, kind):
+def make_mask(ctx, n, kind, few=None):
+    if kind == "few":               # exactly `few` (default: one to five) selected events
+        k = min(n, few or ctx.rng.choice([1, 2, 2, 3, 4, 5]))
+        m = np.zeros(n, dtype=bool)
+        m[ctx.rng.sample(range(n), k)] = True
+        return m
     if kind == "empty":
         return np.zeros(n, dtype=bool)
     if kind == "full":
@@ -348,8 +461,8 @@ def expect_num(val, tol, scale=1.0):
         if f is None:
             return None if np.isnan(val) else f"model nan, impl {val!r}"
         if np.isnan(val):
-            return f"model {float(f)!r}, impl nan"
-        return None if close(val, float(f), tol, scale) else f"model {float(f)!r}, impl {val!r}"
+            return f"model {ffloat(f)!r}, impl nan"
+        return None if close(val, ffloat(f), tol, scale) else f"model {ffloat(f)!r}, impl {val!r}"
     return chk
 
 
@@ -360,7 +473,7 @@ def expect_list(vals, tol, scale=1.0):
             return f"model has {len(got)} values, impl {len(vals)}"
         for g, v in zip(got, vals):
             f = frac(g)
-            if f is None or not close(v, float(f), tol, scale):
+            if f is None or not close(v, ffloat(f), tol, scale):
                 return f"model {g}, impl {v!r}"
         return None
     return chk
@@ -371,8 +484,9 @@ def expect_str(s):
 
 
 # ---------------------------------------------------------------------------------------
-def one_dataset(ctx, model, idx, big_n=None):
-    """`big_n`: dataset of that size (1024, 2048 …), metamorphic part only"""
+def one_dataset(ctx, model, idx, big_n=None, few=None):
+    """`big_n`: dataset of that size (1024, 2048 …), metamorphic part only;
+    `few`: the filter selects exactly that many events of an ordinary dataset"""
     common.import_dclab()
     from dclab import statistics, kde_methods, kde_contours
     from dclab.rtdc_dataset.core import RTDCBase
@@ -380,11 +494,15 @@ def one_dataset(ctx, model, idx, big_n=None):
     variant = rng.choice(["plain", "plain", "ties", "nonpos", "tiny", "incl-nan"])
     if big_n:
         variant = rng.choice(["plain", "incl-nan"])
+    if few:
+        variant = rng.choice(["plain", "plain", "ties"])
     n, data, rs = make_data(ctx, variant, big_n)
-    mkind = rng.choice(["empty", "single", "random", "random", "random", "full"])
+    mkind = rng.choice(["empty", "single", "few", "random", "random", "random", "full"])
     if big_n:
         mkind = "random"
-    mask = make_mask(ctx, n, mkind)
+    if few:
+        mkind = "few"
+    mask = make_mask(ctx, n, mkind, few)
     if variant == "incl-nan":
         for f in FEATS[:2]:
             data[f] = poison(rs, data[f], mask, "some-naninf")
@@ -396,7 +514,7 @@ def one_dataset(ctx, model, idx, big_n=None):
     xa, ya = rng.sample(FEATS, 2)
     cfg = {"xax": xa, "yax": ya, "xscale": rng.choice(["linear", "log"]),
            "yscale": rng.choice(["linear", "log"]),
-           "kdes": rng.sample(KDES, 4) if n <= 34 else ["histogram", "none", "gauss"] if n <= 64
+           "kdes": rng.sample(KDES, 4) if n <= 34 or few else ["histogram", "none", "gauss"] if n <= 64
            else ["histogram", "none"],
            "posx": np.array([float(np.nanmedian(data[xa])), 1.0, np.nan, float(np.nanmax(data[xa]))]),
            "posy": np.array([float(np.nanmedian(data[ya])), 2.0, 0.5, -1.0]),
@@ -459,11 +577,13 @@ def one_dataset(ctx, model, idx, big_n=None):
                                                   "case": descr})
             return
     # scale commutes with selection (element-wise log)
-    with warnings.catch_warnings():
-        warnings.simplefilter("ignore")
-        a1 = RTDCBase._apply_scale(full[xa][mask], "log", xa)
-        a2 = RTDCBase._apply_scale(full[xa], "log", xa)[mask]
-    if canon(a1) != canon(a2):
+    a1 = call(lambda: RTDCBase._apply_scale(full[xa][mask], "log", xa))
+    a2 = call(lambda: RTDCBase._apply_scale(full[xa], "log", xa)[mask])
+    if is_exc(a1) or is_exc(a2):        # private helper renamed / signature changed: not judged
+        ctx.note("RTDCBase._apply_scale is not callable as (array, scale, feature): the direct "
+                 "scale/selection comparison is skipped (log scales are still covered through "
+                 "the entry points)")
+    elif canon(a1) != canon(a2):
         ctx.violation("spec", "_apply_scale(log) does not commute with the selection",
                       {"part": "a", "entry": "scale", "case": descr})
         return
@@ -484,6 +604,8 @@ def one_dataset(ctx, model, idx, big_n=None):
                       ("Mean", f, descr))
             model.ask(f"stat median 1 {bits(mask)} {vals}", expect_num(st[1], 1e-12, sc),
                       ("Median", f, descr))
+            model.ask("medianp " + " ".join(rat(v) for v in x), expect_num(st[1], 1e-12, sc),
+                      ("Median = 50th percentile", f, descr))
             model.ask(f"stat var 1 {bits(mask)} {vals}",
                       expect_num(st[2] ** 2 if not np.isnan(st[2]) else np.nan, 1e-10, sc * sc),
                       ("SD^2", f, descr))
@@ -541,78 +663,147 @@ def one_dataset(ctx, model, idx, big_n=None):
                   ("kde nan positions", descr))
 
         # ---------------- (c) reference estimators ---------------------------------------
+        reference_checks(ctx, model, idx, ds_full, x, y, xa, ya, cfg, mask, descr, nontriv)
+
+
+def ref_defined(r, valid):
+    """the reference estimator is *defined* for this request when it returns a finite value at
+    every valid position (a degenerate sample - zero bandwidth, singular covariance, an
+    undefined bin width - gives nan / an exception and is not judged)"""
+    if is_exc(r):
+        return False
+    r = np.asarray(r, dtype=float)
+    return bool(r.shape == valid.shape and np.all(np.isfinite(r[valid])))
+
+
+def reference_checks(ctx, model, idx, ds_full, x, y, xa, ya, cfg, mask, descr, nontriv):
+    """part (c): every density estimate equals the reference estimator on the selected events, for
+    EVERY sample on which the reference estimator is defined (tiny samples of one to five events
+    and heavily tied samples included). An exception of the implementation where the reference
+    gives finite densities is a failure of that oracle."""
+    from dclab import kde_contours
+    rng = ctx.rng
+    with warnings.catch_warnings():
+        warnings.simplefilter("ignore")
         lx = np.log(x) if cfg["xscale"] == "log" else x
         ly = np.log(y) if cfg["yscale"] == "log" else y
         ok = np.isfinite(lx) & np.isfinite(ly)
-        nice = ok.sum() >= 6 and np.ptp(lx[ok]) > 0 and np.ptp(ly[ok]) > 0 \
-            and len(np.unique(lx[ok])) >= 4 and len(np.unique(ly[ok])) >= 4
-        if nice:
-            for kt in cfg["kdes"]:
-                got = call(lambda: ds_full.get_kde_scatter(xax=xa, yax=ya, kde_type=kt,
-                                                           xscale=cfg["xscale"], yscale=cfg["yscale"]))
-                ref = call(lambda: ref_scatter(kt, x, y, cfg["xscale"], cfg["yscale"]))
-                ctx.case((idx, "ref-scatter", kt, bits(mask)), nontrivial=nontriv)
-                ctx.stat("ref:" + kt)
-                if is_exc(ref) or is_exc(got):
-                    ctx.stat("ref-skipped-exception")
-                    continue
-                if not arr_close(got, ref, 1e-9):
-                    ctx.violation(
-                        "spec", f"get_kde_scatter(kde_type={kt}, {cfg['xscale']}/{cfg['yscale']}) "
-                        f"differs from the reference estimator on the selected events "
-                        f"(max diff {np.nanmax(np.abs(np.asarray(got) - ref)):.3g})",
-                        {"part": "c", "entry": "scatter:" + kt, "case": descr})
+        nval = int(ok.sum())
+        if nval == 0:
+            ctx.stat("ref-skipped-no-valid-event")
+            return
+        size = "tiny(<=5)" if nval <= 5 else "small"
+        plx = np.log(cfg["posx"]) if cfg["xscale"] == "log" else cfg["posx"]
+        ply = np.log(cfg["posy"]) if cfg["yscale"] == "log" else cfg["posy"]
+        pok = np.isfinite(plx) & np.isfinite(ply)
+        for kt in cfg["kdes"]:
+            where = f"(kde_type={kt}, {cfg['xscale']}/{cfg['yscale']}, {nval} valid selected events)"
+            got = call(lambda: ds_full.get_kde_scatter(xax=xa, yax=ya, kde_type=kt,
+                                                       xscale=cfg["xscale"], yscale=cfg["yscale"]))
+            ref = call(lambda: ref_scatter(kt, x, y, cfg["xscale"], cfg["yscale"]))
+            ctx.case((idx, "ref-scatter", kt, bits(mask)), nontrivial=nontriv)
+            if kt == "none":
+                rdef = not is_exc(ref)
+            else:
+                rdef = ref_defined(ref, ok)
+            if not rdef:
+                ctx.stat(f"ref-undefined:{kt}:{size}")
+                continue
+            ctx.stat(f"ref:{kt}:{size}")
+            if is_exc(got):
+                ctx.violation(
+                    "spec", f"get_kde_scatter {where} raises {got[1]} although the reference "
+                    f"estimator is defined on the selected events (finite density at every event)",
+                    {"part": "c", "entry": "scatter:" + kt, "case": descr})
+                return
+            if not arr_close(got, ref, 1e-9):
+                ctx.violation(
+                    "spec", f"get_kde_scatter {where} "
+                    f"differs from the reference estimator on the selected events "
+                    f"(max diff {np.nanmax(np.abs(np.asarray(got) - ref)):.3g})",
+                    {"part": "c", "entry": "scatter:" + kt, "case": descr})
+                return
+            gp = call(lambda: ds_full.get_kde_scatter(
+                xax=xa, yax=ya, kde_type=kt, xscale=cfg["xscale"], yscale=cfg["yscale"],
+                positions=(cfg["posx"], cfg["posy"])))
+            rp = call(lambda: ref_scatter(kt, x, y, cfg["xscale"], cfg["yscale"],
+                                          (cfg["posx"], cfg["posy"])))
+            if (not is_exc(rp)) if kt == "none" else ref_defined(rp, pok):
+                if is_exc(gp):
+                    ctx.violation("spec", f"get_kde_scatter {where} at explicit positions raises "
+                                          f"{gp[1]} although the reference estimator is defined",
+                                  {"part": "c", "entry": "scatter-pos:" + kt, "case": descr})
                     return
-                gp = call(lambda: ds_full.get_kde_scatter(
-                    xax=xa, yax=ya, kde_type=kt, xscale=cfg["xscale"], yscale=cfg["yscale"],
-                    positions=(cfg["posx"], cfg["posy"])))
-                rp = call(lambda: ref_scatter(kt, x, y, cfg["xscale"], cfg["yscale"],
-                                              (cfg["posx"], cfg["posy"])))
-                if not is_exc(gp) and not is_exc(rp) and not arr_close(gp, rp, 1e-9):
-                    ctx.violation("spec", f"get_kde_scatter(kde_type={kt}) at explicit positions "
+                if not arr_close(gp, rp, 1e-9):
+                    ctx.violation("spec", f"get_kde_scatter {where} at explicit positions "
                                           f"differs from the reference estimator",
                                   {"part": "c", "entry": "scatter-pos:" + kt, "case": descr})
                     return
-                gc = call(lambda: ds_full.get_kde_contour(
-                    xax=xa, yax=ya, kde_type=kt, xscale=cfg["xscale"], yscale=cfg["yscale"],
-                    xacc=cfg["xacc"], yacc=cfg["yacc"]))
-                rc = call(lambda: ref_contour(kt, x, y, cfg["xscale"], cfg["yscale"],
-                                              cfg["xacc"], cfg["yacc"]))
-                ctx.case((idx, "ref-contour", kt, bits(mask)), nontrivial=nontriv)
-                if not is_exc(gc) and not is_exc(rc):
-                    if not all(arr_close(a, b, 1e-9) for a, b in zip(gc, rc)):
-                        ctx.violation("spec", f"get_kde_contour(kde_type={kt}, {cfg['xscale']}/"
-                                              f"{cfg['yscale']}) differs from the reference grid / "
-                                              f"estimator", {"part": "c", "entry": "contour:" + kt,
-                                                             "case": descr})
+            gc = call(lambda: ds_full.get_kde_contour(
+                xax=xa, yax=ya, kde_type=kt, xscale=cfg["xscale"], yscale=cfg["yscale"],
+                xacc=cfg["xacc"], yacc=cfg["yacc"]))
+            rc = call(lambda: ref_contour(kt, x, y, cfg["xscale"], cfg["yscale"],
+                                          cfg["xacc"], cfg["yacc"]))
+            ctx.case((idx, "ref-contour", kt, bits(mask)), nontrivial=nontriv)
+            if is_exc(rc) or not np.all(np.isfinite(rc[2])) or min(np.shape(rc[2])) < 1:
+                ctx.stat(f"ref-contour-undefined:{kt}:{size}")
+                continue
+            ctx.stat(f"ref-contour:{kt}:{size}")
+            if is_exc(gc):
+                ctx.violation("spec", f"get_kde_contour {where} raises {gc[1]} although the "
+                                      f"reference grid and estimator are defined",
+                              {"part": "c", "entry": "contour:" + kt, "case": descr})
+                return
+            if not all(arr_close(a, b, 1e-9) for a, b in zip(gc, rc)):
+                ctx.violation("spec", f"get_kde_contour {where} differs from the reference grid / "
+                                      f"estimator", {"part": "c", "entry": "contour:" + kt,
+                                                     "case": descr})
+                return
+            # quantile levels: percentile of the interpolated density (model) + splitting
+            if kt == cfg["kdes"][0] and cfg["xscale"] == "linear" and cfg["yscale"] == "linear" \
+                    and min(gc[2].shape) >= 2 and np.nanmax(gc[2]) > 0:
+                import scipy.interpolate as spint
+                xm, ym, dens = gc
+                xv, yv = xm[:, 0], ym[0, :]
+                dp = call(lambda: spint.interpn(
+                    (xv / xv.max(), yv / yv.max()), dens,
+                    (x[ok] / xv.max(), y[ok] / yv.max()), method="linear",
+                    bounds_error=False, fill_value=0) / dens.max())
+                lev = call(lambda: kde_contours.get_quantile_levels(
+                    density=dens, x=xm, y=ym, xp=x, yp=y, q=np.array(cfg["q"])))
+                if not is_exc(dp) and not is_exc(lev) and not np.isnan(dp).any():
+                    # levels grow with q and do not depend on the order of the events
+                    # (theorems quantile_level_mono_in_q / _permutation_invariant)
+                    qs = sorted(cfg["q"])
+                    perm = np.array(rng.sample(range(x.size), x.size), dtype=int)
+                    lev_s = call(lambda: kde_contours.get_quantile_levels(
+                        density=dens, x=xm, y=ym, xp=x, yp=y, q=np.array(qs)))
+                    lev_p = call(lambda: kde_contours.get_quantile_levels(
+                        density=dens, x=xm, y=ym, xp=x[perm], yp=y[perm], q=np.array(cfg["q"])))
+                    ctx.case((idx, "quantile-mono-perm", bits(mask)), nontrivial=nontriv)
+                    if is_exc(lev_s) or np.any(np.diff(np.asarray(lev_s, dtype=float)) < 0):
+                        ctx.violation("spec", f"quantile levels are not monotone in q: q={qs} "
+                                              f"gives {lev_s}",
+                                      {"part": "c", "entry": "quantile-mono", "case": descr})
                         return
-                    # quantile levels: percentile of the interpolated density (model) + splitting
-                    if kt == cfg["kdes"][0] and cfg["xscale"] == "linear" and cfg["yscale"] == "linear" \
-                            and min(gc[2].shape) >= 2 and np.nanmax(gc[2]) > 0:
-                        import scipy.interpolate as spint
-                        xm, ym, dens = gc
-                        xv, yv = xm[:, 0], ym[0, :]
-                        dp = spint.interpn((xv / xv.max(), yv / yv.max()), dens,
-                                           (x[ok] / xv.max(), y[ok] / yv.max()), method="linear",
-                                           bounds_error=False, fill_value=0) / dens.max()
-                        lev = call(lambda: kde_contours.get_quantile_levels(
-                            density=dens, x=xm, y=ym, xp=x, yp=y, q=np.array(cfg["q"])))
-                        if not is_exc(lev) and not np.isnan(dp).any():
-                            for q, L in zip(cfg["q"], lev):
-                                model.ask(f"pct {rat(q)} " + " ".join(rat(v) for v in dp),
-                                          expect_num(L, 1e-10), ("quantile level", q))
-                                nlt = int(np.sum(dp < L - 1e-12))
-                                nle = int(np.sum(dp <= L + 1e-12))
-                                ctx.case((idx, "quantile", q, bits(mask)), nontrivial=nontriv)
-                                if not (nlt - 1 <= q * (dp.size - 1) + 1e-9 and
-                                        q * (dp.size - 1) < nle + 1e-9):
-                                    ctx.violation(
-                                        "spec", f"quantile level for q={q:.3f} does not split the "
-                                        f"events at q: {nlt} below, {nle} at or below, n={dp.size}",
-                                        {"part": "c", "entry": "quantile", "case": descr})
-                                    return
-        else:
-            ctx.stat("ref-skipped-degenerate")
+                    if is_exc(lev_p) or not arr_close(lev_p, lev, 1e-12):
+                        ctx.violation("spec", f"quantile levels change when the events are "
+                                              f"permuted: {lev} vs {lev_p}",
+                                      {"part": "c", "entry": "quantile-perm", "case": descr})
+                        return
+                    for q, L in zip(cfg["q"], lev):
+                        model.ask(f"pct {rat(q)} " + " ".join(rat(v) for v in dp),
+                                  expect_num(L, 1e-10), ("quantile level", q))
+                        nlt = int(np.sum(dp < L - 1e-12))
+                        nle = int(np.sum(dp <= L + 1e-12))
+                        ctx.case((idx, "quantile", q, bits(mask)), nontrivial=nontriv)
+                        if not (nlt - 1 <= q * (dp.size - 1) + 1e-9 and
+                                q * (dp.size - 1) < nle + 1e-9):
+                            ctx.violation(
+                                "spec", f"quantile level for q={q:.3f} does not split the "
+                                f"events at q: {nlt} below, {nle} at or below, n={dp.size}",
+                                {"part": "c", "entry": "quantile", "case": descr})
+                            return
 
 
 # ---------------------------------------------------------------------------------------
@@ -642,9 +833,16 @@ def history(ctx, model, idx):
     ops = []
     feats = list(FEATS)
     steps = ["stat"] + [rng.choice(["manual", "box", "tmp", "cfg-invalid", "cfg-enable", "emod",
-                                    "stat", "stat"]) for _ in range(rng.randint(5, 12))] + ["stat"]
+                                    "stat", "stat"]) for _ in range(rng.randint(5, 12))]
+    # epilogue: the last request often follows changes that were NOT applied (a feature that
+    # appears late, "remove invalid events" switched on) — the filter state is stale by design
+    steps += rng.choice([["cfg-invalid!", "tmp!"], ["tmp!", "cfg-invalid!"], ["cfg-invalid!"],
+                         ["tmp!"], []]) + ["stat"]
     for step in steps:
         apply = rng.random() < 0.5
+        forced = step.endswith("!")
+        if forced:
+            step, apply = step[:-1], False
         try:
             with warnings.catch_warnings():
                 warnings.simplefilter("ignore")
@@ -663,7 +861,8 @@ def history(ctx, model, idx):
                     if "c12_tmp" not in feats:
                         feats.append("c12_tmp")
                 elif step == "cfg-invalid":
-                    ds.config["filtering"]["remove invalid events"] = bool(rng.random() < 0.7)
+                    ds.config["filtering"]["remove invalid events"] = \
+                        True if forced else bool(rng.random() < 0.7)
                 elif step == "cfg-enable":
                     ds.config["filtering"]["enable filters"] = bool(rng.random() < 0.6)
                 elif step == "emod":
@@ -819,7 +1018,9 @@ def mutation_sequence(ctx, idx):
         if not is_exc(r):
             scribble(r, rs)
     # the data of the dataset itself must be untouched and a fresh computation must agree
-    cached.Cache.clear_cache()
+    if is_exc(call(lambda: cached.Cache.clear_cache())):
+        ctx.note("cached.Cache.clear_cache() is not available: the fresh computation of part (e) "
+                 "runs with a warm cache")
     fresh = requests(dataset(data, mask))
     for name in names:
         c = canon(call(fresh[name]))
@@ -828,6 +1029,253 @@ def mutation_sequence(ctx, idx):
                                   f"from the answers of the long-lived dataset",
                           {"part": "e", "entry": name, "history": hist, "n": n, "mask": bits(mask)})
             return
+
+
+# ---------------------------------------------------------------------------------------
+# part (f): the registry and the glue of get_statistics — generated method / feature subsets
+def enc_name(s):
+    return s.replace(" ", "_")
+
+
+def exact_iqr_zero(x):
+    """is the exact (rational) interquartile range of the finite values 0?"""
+    s = np.sort(x)
+    lo = int(np.floor(0.25 * (s.size - 1)))
+    hi = int(np.ceil(0.75 * (s.size - 1)))
+    return bool(s[lo] == s[hi])
+
+
+def statistics_glue(ctx, model, idx):
+    dclab = common.import_dclab()
+    from dclab import statistics
+    from dclab import definitions as dfn
+    rng = ctx.rng
+    names = [n for n, _ in registry_rows()]
+    variant = rng.choice(["plain", "ties", "incl-nan", "tiny"])
+    n, data, rs = make_data(ctx, variant)
+    mkind = rng.choice(["empty", "few", "random", "random", "full"])
+    mask = make_mask(ctx, n, mkind)
+    if variant == "incl-nan":
+        for f in FEATS:
+            data[f] = poison(rs, data[f], mask, "some-naninf")
+    full = {f: poison(rs, data[f], ~mask, rng.choice(["random", "naninf"])) for f in FEATS}
+    # request
+    r = rng.random()
+    if r < 0.2:
+        methods = None
+    else:
+        methods = [rng.choice(names) for _ in range(rng.randint(1, 4))] if r < 0.35 \
+            else rng.sample(names, rng.randint(1, len(names)))
+        if rng.random() < 0.1:
+            methods.insert(rng.randrange(len(methods) + 1), "Bogus")
+    pool = FEATS + ["area_cvx", "DEFORM", "Area_um"]         # area_cvx: not in the dataset
+    feats = rng.sample(pool, rng.randint(0, 4))
+    enable = rng.random() < 0.8
+    flow = rng.choice([0.04, 0.16, None])
+    ds = dataset(full, mask)
+    if flow is None:
+        if is_exc(call(lambda: ds.config["setup"].pop("flow rate"))):
+            flow = 0.04
+    else:
+        ds.config["setup"]["flow rate"] = flow
+    if not enable:
+        ds.config["filtering"]["enable filters"] = False
+    ctx.stat("glue:methods=" + ("default" if methods is None else "bogus" if "Bogus" in methods
+                                else "subset"))
+    ctx.stat(f"glue:features={len(feats)}")
+    ctx.case(("glue", idx, tuple(methods or ()), tuple(feats), bits(mask), enable),
+             nontrivial=0 < int(mask.sum()) < n)
+    got = call(lambda: statistics.get_statistics(ds, methods=methods, features=feats))
+    # model request
+    cb, cols, skip_mode, scales = {}, [], set(), {}
+    with warnings.catch_warnings():
+        warnings.simplefilter("ignore")
+        for f in feats:
+            fl = f.lower()
+            if fl not in ds:
+                cols.append(f"{fl} -")
+                continue
+            col = full[fl]
+            x = col[mask] if enable else col
+            x = x[np.isfinite(x)]
+            scales[fl] = float(np.max(np.abs(x))) if x.size else 1.0
+            cols.append(fl + " " + " ".join(rat(v) for v in col))
+            if x.size:
+                cb[x.size] = rat(x.size ** (1 / 3))
+                bsz = 2 * (np.percentile(x, 75) - np.percentile(x, 25)) / x.size ** (1 / 3)
+                if bsz == 0 or not np.isfinite(bsz):
+                    if not exact_iqr_zero(x):
+                        skip_mode.add(fl)
+                elif (np.abs((x / bsz) % 1 - 0.5) < 1e-7).any():
+                    skip_mode.add(fl)
+    line = (f"getstat {int(enable)} {bits(mask)} {rat(flow) if flow is not None else 'nan'} "
+            + ("*" if methods is None else ",".join(enc_name(m) for m in methods)) + " ; "
+            + " ".join(f"{k}:{v}" for k, v in sorted(cb.items()))
+            + "".join(" ; " + c for c in cols))
+    descr = {"part": "f", "methods": methods, "features": feats, "enable": enable,
+             "flow": flow, "mask": bits(mask), "full": {f: [rat(v) for v in full[f]] for f in FEATS}}
+
+    def chk(ans):
+        ans = ans.strip()
+        if ans == "keyerror" or is_exc(got):
+            if ans == "keyerror" and is_exc(got) and got[1] == "err:key":
+                return None
+            return f"model '{ans[:60]}', impl {got if is_exc(got) else 'returns normally'}"
+        slots = [t.split() for t in ans.split(" | ")] if ans else []
+        hdr, vals = got
+        exp_hdr = []
+        for mt, ft, _ in slots:
+            mt = mt.replace("_", " ")
+            exp_hdr.append(mt if ft == "-" else " ".join(
+                [mt, dfn.get_feature_label(ft, rtdc_ds=ds)]))
+        if list(hdr) != exp_hdr:
+            return f"header {list(hdr)} but methods x features order gives {exp_hdr}"
+        if len(vals) != len(slots):
+            return f"{len(vals)} values for {len(slots)} header entries"
+        for (mt, ft, mv), v in zip(slots, vals):
+            mt = mt.replace("_", " ")
+            f = frac(mv) if mv != "unmodelled" else None
+            if mv == "unmodelled":
+                return f"statistic '{mt}' is registered but not modelled"
+            v = float(v)
+            sc = scales.get(ft, 1.0)
+            if mt == "Mode" and ft in skip_mode:
+                ctx.stat("glue:mode-skipped-near-discontinuity")
+                continue
+            if mt == "SD":
+                v, tol, sc = (v * v if not np.isnan(v) else v), 1e-10, sc * sc
+            else:
+                tol = 1e-9 if mt == "Mode" else 1e-12
+            if f is None:
+                if not np.isnan(v):
+                    return f"{mt} {ft}: model nan, impl {v!r}"
+            elif abs(ffloat(f)) > 1e150 or sc > 1e150:
+                # values like 1e300 (placed on excluded events, used when filters are disabled):
+                # sums and squares leave the float range, the exact model does not
+                ctx.stat("glue:skipped-float-overflow-range")
+            elif np.isnan(v) or not close(v, ffloat(f), tol, sc):
+                return f"{mt} {ft}: model {ffloat(f)!r}, impl {v!r}"
+        return None
+    model.ask(line, chk, ("get_statistics glue", f"methods={methods} features={feats} "
+                                                 f"enable={enable} mask={bits(mask)}"))
+    # direct oracles that need no model: shape, and the empty selection
+    if not is_exc(got) and methods is not None and "Bogus" not in methods:
+        reg = dict(registry_rows())
+        nd = sum(1 for m in methods if not reg[m])
+        nf = sum(1 for m in methods if reg[m])
+        if len(got[0]) != nd + len(feats) * nf or len(got[1]) != len(got[0]):
+            ctx.violation("spec", f"get_statistics(methods={methods}, features={feats}) returns "
+                                  f"{len(got[0])} header entries / {len(got[1])} values, expected "
+                                  f"{nd} + {len(feats)} x {nf}", descr)
+
+
+# ---------------------------------------------------------------------------------------
+# large samples: more than a million selected events (the size of real RT-DC measurements).
+# Only entry points whose cost is linear in the number of events are evaluated: all statistics,
+# every KDE type at a handful of explicit positions (vs. the reference estimators of part (c) on
+# the selected events), downsampled scatter. Oracles: twin 2 (other values on excluded events),
+# twin 1 (selected events only; statistics and downsampling), reference estimators, definitions.
+def large_sample(ctx, idx, n_lo, n_hi):
+    common.import_dclab()
+    from dclab import statistics
+    rng = ctx.rng
+    rs = np.random.RandomState(rng.randrange(2**31))
+    n = rng.randrange(n_lo, n_hi)
+    data = {"area_um": np.exp(rs.normal(4.0, 0.5, n)),
+            "deform": np.abs(rs.normal(0.05, 0.03, n)) + 0.002}
+    nexcl = rng.randrange(1, max(2, n // 25))
+    mask = np.ones(n, dtype=bool)
+    mask[rs.randint(0, n, nexcl)] = False
+    ninv = rng.choice([0, 3, 1000])                 # nan / inf on a few SELECTED events
+    if ninv:
+        k = rs.randint(0, n, ninv)
+        data["area_um"][k] = rs.choice([np.nan, np.inf, -np.inf], ninv)
+    how = rng.choice(["random", "naninf"])
+    full = {f: poison(rs, data[f], ~mask, how) for f in data}
+    twin2 = {f: poison(rs, data[f], ~mask, "naninf" if how == "random" else "random") for f in data}
+    sel = {f: full[f][mask] for f in data}
+    xa, ya = rng.sample(["area_um", "deform"], 2)
+    xs, ys = rng.choice(["linear", "log"]), rng.choice(["linear", "log"])
+    x, y = sel[xa], sel[ya]
+    pos = (np.array([float(np.nanmedian(data[xa])), float(data[xa][0]) * 1.01, np.nan, 1.0]),
+           np.array([float(np.nanmedian(data[ya])), float(data[ya][0]), 0.5, 2.0]))
+    nsel = int(mask.sum())
+    tag = f"large sample: n={n}, selected={nsel}, {xa}/{ya}, {xs}/{ys}"
+    descr = {"part": "large", "n": n, "selected": nsel, "xax": xa, "yax": ya, "scale": [xs, ys]}
+    ctx.stat("large:datasets")
+    ctx.stat("large:selected>2^20" if nsel > 2**20 else "large:selected<=2^20")
+    methods = ["Mean", "Median", "Mode", "SD", "Events", "Flow rate", "%-gated"]
+
+    def answers(ds, twin1=False):
+        out = {}
+        out["stat"] = canon(call(lambda: statistics.get_statistics(
+            ds, methods=[m for m in methods if not (twin1 and m == "%-gated")], features=[xa, ya])))
+        for k in (0, 1000):
+            out[f"down:{k}"] = canon(call(lambda: ds.get_downsampled_scatter(
+                xax=xa, yax=ya, downsample=k, xscale=xs, yscale=ys, remove_invalid=True)))
+        if not twin1:
+            for kt in KDES:
+                out[f"scatter-pos:{kt}"] = call(lambda: ds.get_kde_scatter(
+                    xax=xa, yax=ya, kde_type=kt, xscale=xs, yscale=ys,
+                    positions=(np.array(pos[0], copy=True), np.array(pos[1], copy=True))))
+        return out
+
+    ds_full = dataset(full, mask)
+    r_full = answers(ds_full)
+    r_t2 = answers(dataset(twin2, mask))
+    r_t1 = answers(dataset(sel, None), twin1=True)
+    r_full_t1 = dict(r_full, stat=canon(call(lambda: statistics.get_statistics(
+        ds_full, methods=methods[:-1], features=[xa, ya]))))
+    for name, r in r_full.items():
+        ctx.case(("large", idx, name, n, nsel), nontrivial=True)
+        ctx.stat("large:" + name.split(":")[0])
+        if canon(r_t2[name]) != canon(r):
+            ctx.violation("spec", f"{name} changes when only EXCLUDED events are altered ({tag})",
+                          {"entry": name, "twin": 2, **descr})
+            return
+        if name in r_t1 and r_t1[name] != r_full_t1[name]:
+            ctx.violation("spec", f"{name} differs from the same computation on the dataset of the "
+                                  f"selected events only ({tag})", {"entry": name, "twin": 1, **descr})
+            return
+    # definitions on the finite selected values
+    with warnings.catch_warnings():
+        warnings.simplefilter("ignore")
+        want = [("Events", None, nsel), ("Flow rate", None, 0.04), ("%-gated", None, 100.0 * nsel / n)]
+        for f in (xa, ya):
+            v = sel[f][np.isfinite(sel[f])]
+            want += [("Mean", f, np.average(v)), ("Median", f, np.median(v)), ("SD", f, np.std(v))]
+        for meth, f, b in want:
+            got = call(lambda: statistics.get_statistics(ds_full, methods=[meth],
+                                                         features=[f] if f else [xa]))
+            a = np.nan if is_exc(got) or len(got[1]) != 1 else got[1][0]
+            ctx.case(("large", idx, "def", meth, f, n, nsel), nontrivial=True)
+            if not close(a, b, 1e-12):
+                ctx.violation("spec", f"{meth} {f or ''} is {a!r}; the definition on the finite "
+                                      f"selected values gives {b!r} ({tag})",
+                              {"entry": f"stat:{meth}:{f}", **descr})
+                return
+        lx = np.log(pos[0]) if xs == "log" else pos[0]
+        ly = np.log(pos[1]) if ys == "log" else pos[1]
+        pok = np.isfinite(lx) & np.isfinite(ly)
+        for kt in KDES:
+            got = r_full[f"scatter-pos:{kt}"]
+            ref = call(lambda: ref_scatter(kt, x, y, xs, ys, pos))
+            ctx.case(("large", idx, "ref", kt, n, nsel), nontrivial=True)
+            if not ((not is_exc(ref)) if kt == "none" else ref_defined(ref, pok)):
+                ctx.stat("large:ref-undefined:" + kt)
+                continue
+            ctx.stat("large:ref:" + kt)
+            if is_exc(got):
+                ctx.violation("spec", f"get_kde_scatter(kde_type={kt}) at {pos[0].size} explicit "
+                                      f"positions raises {got[1]} although the reference estimator "
+                                      f"is defined ({tag})", {"entry": "scatter-pos:" + kt, **descr})
+                return
+            if not arr_close(got, ref, 1e-9):
+                ctx.violation("spec", f"get_kde_scatter(kde_type={kt}) at explicit positions differs "
+                                      f"from the reference estimator (max diff "
+                                      f"{np.nanmax(np.abs(np.asarray(got) - ref)):.3g}; {tag})",
+                              {"entry": "scatter-pos:" + kt, **descr})
+                return
 
 
 def run(ctx):
@@ -841,9 +1289,31 @@ def run(ctx):
             raise
         if len(ctx.violations) > before and len(ctx.violations) >= 3:
             break
+    # tiny selections: every size from one to six selected events is explored on every run
+    for k in range(1, 7):
+        if len(ctx.violations) < 3:
+            one_dataset(ctx, model, 2 * 10**6 + k, few=k)
     for big in (1024, 2048):
         if len(ctx.violations) < 3:
             one_dataset(ctx, model, 10**6 + big, big_n=big)
+    # one sample above 2**20 selected events per quick run (a few seconds; measured 5-8 s), the
+    # thorough tier adds two more up to 2**22 events
+    if len(ctx.violations) < 3:
+        large_sample(ctx, 0, 2**20 + 2**16, 2**20 + 2**18)
+    if ctx.tier == "thorough":
+        for i, (lo, hi) in enumerate([(2**19, 2**20), (2**21, 2**22)]):
+            if len(ctx.violations) < 3:
+                large_sample(ctx, i + 1, lo, hi)
+    for idx in range(ctx.n(40, 400)):
+        if len(ctx.violations) < 4:
+            statistics_glue(ctx, model, idx)
+    if registry_from_source() is None:
+        ctx.note("Statistics.available_methods is not reachable: the registry table was not "
+                 "regenerated (last table kept); get_statistics is still compared with the model")
+    else:
+        model.ask("registry", expect_str(" ".join(
+            f"{enc_name(n)}:{int(f)}" for n, f in registry_from_source())),
+            ("registry table = Statistics.available_methods",))
     for idx in range(ctx.n(30, 400)):
         if len(ctx.violations) < 4:
             history(ctx, model, idx)
